@@ -130,6 +130,6 @@ CliErr == Is("cli_err") /\ A("C10", "tool-failed", FALSE) /\ UNCHANGED <<dict, o
 
 Lift(a) == a /\ UNCHANGED <<lastop, lastp>>
 DNext == \/ CliTok \/ CliWakati \/ CliOrder \/ CliMapRel \/ CliErr \/ DSession \/ Proj \/ User \/ Map \/ WR \/ MapRel \/ DProbs \/ Lift(CInit) \/ Lift(CUpd)
-         \/ Lift(Renew) \/ Lift(BuildErr) \/ Lift(BigSent) \/ Lift(Reset) \/ Lift(Tok) \/ Lift(Read) \/ Lift(PanicStuck) \/ Lift(PanicElsewhere)
+         \/ Lift(Renew) \/ Lift(BuildErr) \/ Lift(BigSent) \/ Lift(LongLife) \/ Lift(Reset) \/ Lift(Tok) \/ Lift(Read) \/ Lift(PanicStuck) \/ Lift(PanicElsewhere)
 DSpec == DInit /\ [][DNext]_dvars
 ===========================================================================
